@@ -163,6 +163,11 @@ class Sched:
         self.names = {}
         self.record = record
         self.timers_adversarial = timers_adversarial
+        # extra pre-emption points (after an expired timed wait, at Thread.is_alive) for scenarios that opt in
+        self.extra_yields = False
+        # with timers_adversarial off: timed waits whose description starts with this prefix may still expire while
+        # other threads can run (e.g. 'get(' - timed queue reads only)
+        self.adversarial_what = None
         self.observers = []           # callables run at every yield point (oracle sampling)
         self.quiescent_observers = []  # callables run when only timers can make progress
         self.atomic = 0               # >0: inside an atomic section of a virtual primitive (no switching)
@@ -213,7 +218,10 @@ class Sched:
             return self._abort_handover(me)
         cands = self._candidates()
         if not self.timers_adversarial:
-            normal = [c for c in cands if not c[1]]
+            aw = self.adversarial_what
+            normal = [c for c in cands if not c[1] or (aw and (c[0].what or '').startswith(aw))]
+            if not any(not c[1] for c in normal):
+                normal = []
             if normal:
                 cands = normal
         else:
@@ -427,6 +435,8 @@ def _join(self, timeout=None):
 def _is_alive(self):
     S = CURRENT
     if S is not None and hasattr(self, '_verif_mt') and S.managed():
+        if S.extra_yields:
+            S.yield_point('is_alive')      # a liveness test is a check-then-act point: let the others run first
         return self._verif_mt.state != 'done'
     return _real_is_alive(self)
 
